@@ -11,16 +11,20 @@
 enum { VK_NONE = 0, VK_INT, VK_UINT, VK_LONG, VK_ULONG, VK_DOUBLE, VK_STR };
 struct varg { int kind; long long i; double d; const char *s; };
 int verif_asprintf(char **strp, const char *fmt, struct varg a, struct varg b);
-/* (x) + 0 applies the default promotions and decays string literals/arrays
- * (CBMC's _Generic does not decay arrays by itself) */
-#define VARG(x) VARG_((x) + 0)
-#define VARG_(x) ((struct varg){                                                    \
+/* Arrays (string literals, char buffers) do not decay in CBMC's _Generic:
+ * they fall into the default branches, which treat them as strings.  No
+ * arithmetic is applied to the argument (x + 0 would turn -0.0 into +0.0). */
+#define VARG(x) ((struct varg){                                                     \
   _Generic((x), int: VK_INT, unsigned: VK_UINT, long: VK_LONG, unsigned long: VK_ULONG, \
-                long long: VK_LONG, unsigned long long: VK_ULONG,                    \
-                float: VK_DOUBLE, double: VK_DOUBLE, char *: VK_STR, const char *: VK_STR), \
-  _Generic((x), char *: 0, const char *: 0, float: 0, double: 0, default: (x)),       \
-  _Generic((x), char *: 0.0, const char *: 0.0, default: (x)),                        \
-  _Generic((x), char *: (x), const char *: (x), default: (const char *)0) })
+                long long: VK_LONG, unsigned long long: VK_ULONG, char: VK_INT,      \
+                float: VK_DOUBLE, double: VK_DOUBLE, default: VK_STR),               \
+  _Generic((x), int: (x), unsigned: (x), long: (x), unsigned long: (x), long long: (x), \
+                unsigned long long: (x), char: (x), default: 0),                     \
+  _Generic((x), float: (x), double: (x), default: 0.0),                              \
+  _Generic((x), int: (const char *)0, unsigned: (const char *)0, long: (const char *)0, \
+                unsigned long: (const char *)0, long long: (const char *)0,          \
+                unsigned long long: (const char *)0, char: (const char *)0,          \
+                float: (const char *)0, double: (const char *)0, default: (x)) })
 #define VARG_NONE ((struct varg){ VK_NONE, 0, 0.0, (const char *)0 })
 #define VERIF_PICK(_1, _2, _3, NAME, ...) NAME
 #define verif_asprintf0(strp, fmt) verif_asprintf(strp, fmt, VARG_NONE, VARG_NONE)
